@@ -244,7 +244,8 @@ pub fn main_for(prop: Prop) {
         if ill_case {
             knobs.ill = 1000;
         }
-        if prop == Prop::C24 && ci % 5 == 1 {
+        // plausible-looking forms the front end has to reject or handle (C24 all the time, C22 rarely)
+        if (prop == Prop::C24 && ci % 4 == 1) || (prop == Prop::C22 && ci % 16 == 5) {
             knobs.odd = 120;
         }
         let mut r = rng.fork();
